@@ -2,6 +2,8 @@ package main
 
 import (
 	"go/token"
+	"regexp"
+	"strconv"
 	"strings"
 
 	"golang.org/x/tools/go/ssa"
@@ -23,7 +25,15 @@ func reqParamEntries(w *World) []*ssa.Function {
 
 // firstTokenNorm rewrites strings.Cut(x, sep)#0 (the part before the first separator) as strings.Split(x, sep)[0]:
 // the same string for every x.
+var splitNFirst = regexp.MustCompile(`^call<strings\.SplitN>\((.*),const\((-?\d+)\)\)\[const\(0\)\]$`)
+
 func firstTokenNorm(ex string) string {
+	// strings.SplitN(x, sep, n)[0] with n >= 2 (or negative): the part before the first separator as well
+	if m := splitNFirst.FindStringSubmatch(ex); m != nil {
+		if n, err := strconv.Atoi(m[2]); err == nil && (n >= 2 || n < 0) {
+			return "call<strings.Split>(" + m[1] + ")[const(0)]"
+		}
+	}
 	const pre = "call<strings.Cut>("
 	if !strings.HasPrefix(ex, pre) || !strings.HasSuffix(ex, ")#0") {
 		return ex
